@@ -200,3 +200,41 @@ def _():
     p1, p2 = list(list(d.get_body())[0])
     if p1.get_style(s.StyleProperties.FontFamily) != ("A",): return f'tts:fontFamily="A" is read as {p1.get_style(s.StyleProperties.FontFamily)!r}'
     if p2.get_style(s.StyleProperties.FontFamily) != ("B", s.GenericFontFamilyType.sansSerif): return f'tts:fontFamily="B, sansSerif" is read as {p2.get_style(s.StyleProperties.FontFamily)!r}'
+
+
+@witness("C04", "noncontent-tail-text")
+def _():
+    # regression: the text that follows a child that is no content element (tt:metadata, ttm:*, foreign and unknown elements, comment
+    # and processing-instruction nodes) is character content of the parent; such a child contributes nothing, whatever it contains
+    import xml.etree.ElementTree as et
+    import ttconv.isd as I, ttconv.imsc.reader as r
+    NSX = 'xmlns:ttm="http://www.w3.org/ns/ttml#metadata" xmlns:f="urn:example:foreign"'
+    d = _imsc(TT % (NSX, '<body><div><p>Hello <metadata begin="5s"><ttm:desc>x</ttm:desc><p>hidden</p></metadata>world</p></div></body>'))
+    got = _texts(I.ISD.from_model(d, 0))
+    if "".join(got) != "Hello world": return f"<p>Hello <metadata>..</metadata>world</p> presents {got}"
+    d = _imsc(TT % (NSX, '<body><div><p><span begin="1s" end="2s">one</span><metadata/>two</p></div></body>'))
+    if _p(d).get_end() is not None: return f"the tail text of <metadata/> does not make the paragraph indefinite: it ends at {_p(d).get_end()}"
+    if _texts(I.ISD.from_model(d, 5)) != ["two"]: return f"<p><span begin=1s end=2s>one</span><metadata/>two</p> presents {_texts(I.ISD.from_model(d, 5))} at 5 s"
+    d = _imsc(TT % (NSX, '<body><div><p xml:space="default"><set tts:color="red"/>a<f:x xml:space="preserve" dur="1s"><span>hidden</span></f:x> b <foo/>c<br/><ttm:title>t</ttm:title>d</p></div></body>'))
+    got = _texts(I.ISD.from_model(d, 0))
+    if "".join(got) != "a b cd": return f"text around foreign, unknown and ttm: children is presented as {got}"
+    # a sequential container: text is not timed content, the non-content children change nothing
+    d = _imsc(TT % (NSX, '<body><div><p timeContainer="seq"><span dur="1s">one</span><metadata/>x<span dur="1s">two</span></p></div></body>'))
+    if _p(d).get_end() != Fraction(2) or _texts(I.ISD.from_model(d, Fraction(3, 2))) != ["two"]: return "a non-content child in a seq container changes the timing"
+    # comments and processing instructions as ElementTree presents them when the parser keeps them
+    tb = et.TreeBuilder(insert_comments=True, insert_pis=True)
+    root = et.fromstring(TT % ("", '<body><!-- c --><div><p>Hel<!-- c -->lo <?pi x?>world</p><!-- c --></div><?pi y?></body>'), parser=et.XMLParser(target=tb))
+    if not any(c.tag is et.Comment for c in root.iter()): return "the test parser does not keep comments"
+    got = _texts(I.ISD.from_model(r.to_model(et.ElementTree(root)), 0))
+    if "".join(got) != "Hello world": return f"text around comment and processing-instruction nodes is presented as {got}"
+
+
+@witness("C04", "seq-region-break-hides-nested-style")
+def _():
+    # in a region with timeContainer="seq", after a child with an indefinite end, a child that is no content element ends the children
+    # loop and the nested styles after it are not read (without that child they are)
+    import ttconv.style_properties as s
+    reg = '<head><layout><region xml:id="r" timeContainer="seq"><p>a</p>%s<style tts:color="red"/></region></layout></head><body/>'
+    a = _imsc(TT % ("", reg % "<metadata/>")).get_region("r").get_style(s.StyleProperties.Color)
+    b = _imsc(TT % ("", reg % "")).get_region("r").get_style(s.StyleProperties.Color)
+    if a != b: return f"nested style after a non-content child in a seq region: tts:color is {a}, without the child {b}"
